@@ -316,6 +316,9 @@ FpEvOK(ev) ==
 
 \* grid construction from special floating-point values (C11):
 \* pts[i] = <<tag, n, d>>, tag 0 number, 1 NaN, 2 +Inf, 3 -Inf, 4 -0.0
+\* integrate<n> across logically different grids: refused with DIFFERING_GRIDS in every type
+FpIntXOK(ev) == For("C08") => \A k \in {"out_d", "out_l"} : ThrewCode(ev, k, "DIFFERING_GRIDS")
+
 FpGridNewOK(ev) ==
   \A k \in {"f", "d", "l"} : IF XGridValid(ev.pts) THEN ev[k] = "ok" ELSE Threw(ev, k)
 
@@ -338,6 +341,7 @@ EventOK(ev) == /\ Sane(ev)
                     [] ev.op = "Interp" -> InterpEvOK(ev)
                     [] ev.op \in {"FpGen", "FpEval", "FpBin", "FpApply", "FpBF", "FpInt", "FpInterp"} -> FpEvOK(ev)
                     [] ev.op = "FpGridNew" -> FpGridNewOK(ev)
+                    [] ev.op = "FpIntX" -> FpIntXOK(ev)
                     [] ev.op \in {"ExDiffusion", "ExPotential", "ExPotentialWin", "ExOscillator", "ExHydrogen"} -> ExEvOK(ev)
                     [] OTHER -> FALSE
 =============================================================================
